@@ -105,6 +105,7 @@ class ContractSet:
         self.modules = {}
         self.opaque = {}
         self.inputs_phase = False
+        self.used = set()           # contracts applied at call sites (callee known only by its contract)
         self.pre_vals = None
         self.old_vals = None
         self.entry_frame = None
@@ -646,6 +647,7 @@ class ContractSet:
     # ------------------------------------------------------------------------------------------
     def apply(self, I: Interp, c: Contract, fv, loc):
         P = I.path
+        self.used.add(c.target)
         if c.bind_kwargs and fv.node.args.kwarg is not None:
             kd = loc.get(fv.node.args.kwarg.arg)
             loc = dict(loc)
